@@ -459,7 +459,28 @@ fn mutate_csv(rng: &mut Rng, text: &str) -> (String, String) {
     // half of the time aim at a cell that holds a ';'-separated list (complex selectors), when there is one
     let listcells: Vec<(usize, usize)> = rows.iter().enumerate().skip(1).flat_map(|(i, row)| row.iter().enumerate().filter(|(_, c)| c.contains(';')).map(move |(j, _)| (i, j))).collect();
     let (r, c) = if !listcells.is_empty() && rng.chance(1, 2) { *rng.pick(&listcells) } else { (r, c) };
-    let name = match rng.below(11) {
+    let name = match rng.below(13) {
+        11 | 12 => {
+            // a whole column: dropped with its header (the older layout of the file had fewer columns) or blank in every row;
+            // aimed at the columns that were added later, when the header has them
+            let later: Vec<usize> = rows[0].iter().enumerate().filter(|(_, h)| ["TargetKey", "TargetData", "TargetDataSet", "SubStore"].contains(&h.as_str())).map(|(i, _)| i).collect();
+            let col = if !later.is_empty() && rng.chance(2, 3) { *rng.pick(&later) } else { rng.below(rows[0].len().max(1)) };
+            if rng.chance(1, 2) {
+                for row in rows.iter_mut() {
+                    if col < row.len() {
+                        row.remove(col);
+                    }
+                }
+                "column-dropped"
+            } else {
+                for row in rows.iter_mut().skip(1) {
+                    if col < row.len() {
+                        row[col] = String::new();
+                    }
+                }
+                "column-blanked"
+            }
+        }
         8 if rows[r][c].contains(';') => {
             let mut parts: Vec<String> = rows[r][c].split(';').map(|x| x.to_string()).collect();
             let k = rng.below(parts.len());
@@ -868,7 +889,7 @@ fn run_batches(p: &Params, rep: &mut Report, inputs: Vec<Input>) {
 }
 
 pub fn run(p: &Params, rep: &mut Report) {
-    rep.rule = "valid STAM JSON / STAM CSV / CBOR serialisations of stores reached by seeded histories, mutated: pretty JSON edited line-wise (delete / duplicate / swap lines, extreme numbers, temporary ids with extreme numbers, @type swaps, references rewired to other strings of the document, values retyped, truncation, alignment flips, double edits), CSV cells (empty, surplus, missing, bad numbers, selector-kind lists of the wrong length, doubled lists, cells from other rows, header swapped) in manifest, annotation and dataset files, CBOR truncated at every length <= 512 and beyond, bit flips and length bytes; plus single annotations for AnnotationBuilder::from_json_str, annotation lists for annotate_from_file, datasets for AnnotationDataSet::from_file and strings for the Cursor / Type / SelectorKind / DataFormat parsers. Every input is loaded in a child process (RLIMIT_AS 3 GiB, RLIMIT_CPU 30 s per batch of 200) under catch_unwind; a returned store goes through the dump self-consistency checker, the canonical observation and JSON serialisation. distinct_nontrivial = distinct (loader, mutation, outcome, error class) observed".into();
+    rep.rule = "valid STAM JSON / STAM CSV / CBOR serialisations of stores reached by seeded histories, mutated: pretty JSON edited line-wise (delete / duplicate / swap lines, extreme numbers, temporary ids with extreme numbers, @type swaps, references rewired to other strings of the document, values retyped, truncation, alignment flips, double edits), CSV cells (empty, surplus, missing, bad numbers, selector-kind lists of the wrong length, doubled lists, cells from other rows, header swapped, a whole column dropped or blanked) in manifest, annotation and dataset files, CBOR truncated at every length <= 512 and beyond, bit flips and length bytes; plus single annotations for AnnotationBuilder::from_json_str, annotation lists for annotate_from_file, datasets for AnnotationDataSet::from_file and strings for the Cursor / Type / SelectorKind / DataFormat parsers. Every input is loaded in a child process (RLIMIT_AS 3 GiB, RLIMIT_CPU 30 s per batch of 200) under catch_unwind; a returned store goes through the dump self-consistency checker, the canonical observation and JSON serialisation. distinct_nontrivial = distinct (loader, mutation, outcome, error class) observed".into();
     rep.assumptions = vec![
         "time proportional to the input is judged on the CPU time of the loading thread with a bound of 2 s + 1 ms per byte per input; 180 s of wall clock without answer makes the run inconclusive".into(),
         "a child that dies is attributed to the input it had announced (START line flushed before each input)".into(),
